@@ -265,6 +265,15 @@ class _:
                             raise Fail("collapse:tensor:max", f"{case} dims={dims}")
             if not _close(obj.collapse(), X.sum()):
                 raise Fail(f"collapse:{name}:all", f"{case}")
+        # reducers whose result is not of the element type: the mean over fibres of an integer-valued tensor
+        Xi = rs.randint(-3, 4, size=shp)
+        Ti = ttb.tensor(Xi.copy())
+        for k in range(1, N):
+            for dims in itertools.combinations(range(N), k):
+                for fun, ref, nm in ((np.mean, lambda a, ax: a.mean(axis=ax), "mean"), (lambda v: v.sum() / 2.0, lambda a, ax: a.sum(axis=ax) / 2.0, "half-sum")):
+                    got = Ti.collapse(np.array(dims), fun)
+                    if not _close(_dense(ttb, got), ref(Xi.astype(float), dims)):
+                        raise Fail(f"collapse:integer-tensor:{nm}", f"{case} dims={dims}")
             # scale along one mode by a vector, along two modes by a tensor
             for n in range(N):
                 v = rs.randint(-2, 3, size=shp[n]).astype(float)
